@@ -201,7 +201,24 @@ def check(model: Model, run: Run) -> None:
                 c = n.value if isinstance(n.value, str) else n.value.decode("latin-1")
                 if c in "()*\\":
                     parser_special.add(ord(c))
-    unesc = [s for s in subs if s is not esite]
+    unesc = [s for s in subs if s.node is not esite.node]
+    # J21: escapes are decoded in ONE pass over the text (one substitution with a callback, or one scan): a loop of `.replace()` calls -
+    # one per escape, or per distinct escape - feeds the output of each pass to the next, and a backslash produced by decoding `\5c`
+    # joins the two characters after it into an escape nobody wrote
+    if not unesc:
+        hexers = [f for f in model.functions.values() if f.module == FILTER and not isinstance(f.node, ast.Lambda) and
+                  any(isinstance(c, ast.Call) and (norm(c.func).endswith("b16decode") or norm(c.func).endswith("fromhex") or
+                                                   (isinstance(c.func, ast.Name) and c.func.id == "int" and len(c.args) == 2)) for c in ast.walk(f.node))]
+        seq = [(f, c) for f in hexers for c in ast.walk(f.node) if isinstance(c, ast.Call) and isinstance(c.func, ast.Attribute) and c.func.attr == "replace" and len(c.args) >= 2 and
+               any(isinstance(l, (ast.For, ast.While)) and any(x is c for x in ast.walk(l)) for l in ast.walk(f.node))]
+        if seq:
+            f, c = seq[0]
+            run.ob("J21-escapes-decoded-in-one-pass", False, {"function": f.name})
+            run.fail(Finding("J21-escapes-decoded-in-one-pass", f.qualname, norm(c)[:80],
+                             f"{f.name} decodes escapes with `{norm(c)[:50]}` inside a loop: every pass rescans what the passes before it produced, so the backslash that "
+                             "`\\5c` decodes to can combine with the hex digits after it and be decoded a second time", model.loc(f.module, c)))
+        raise AnalysisError("un-escaper substitution not found")
+    run.ob("J21-escapes-decoded-in-one-pass", True, {"substitution": unesc[0].name})
     lead = None
     if len(unesc) == 1:
         un = build(unesc[0].pattern, unesc[0].flags, "match")
@@ -235,9 +252,9 @@ def check(model: Model, run: Run) -> None:
         digits = "0-9a-f" if fmt[1] == "02x" else "0-9A-F"
         W = Lang(build(f"\\\\[{digits}]{{2}}".encode(), 0, "fullmatch"))
         # what the un-escaper accepts: its escape pattern must match the three bytes and the hex check must accept the two digits
-        hexs = [s for s in find_sites(model) if s.module == FILTER and s.api in ("match", "fullmatch") and s.func.startswith(unesc[0].func) if len(unesc) == 1]
         if len(unesc) != 1:
             raise AnalysisError("un-escaper substitution not found")
+        hexs = [s for s in find_sites(model) if s.module == FILTER and s.api in ("match", "fullmatch") and s.func.startswith(unesc[0].func)]
         R1 = Lang(build(unesc[0].pattern, unesc[0].flags, "fullmatch"))
         w = difference_witness(W, R1)
         ok1 = w is None
@@ -278,6 +295,7 @@ def check(model: Model, run: Run) -> None:
     components_rendered_as_held(model, run)
     no_default_for_empty_text(model, run)
     delimiter_scans_start_at_the_first_octet(model, run)
+    delimiter_searches_stay_in_their_piece(model, run)
     from .c17 import hooks_store_fields_as_given
     hooks_store_fields_as_given(model, run, model.subclasses(f"{FILTER}.LDAPFilter"), "J14-fields-held-as-given",
                                 "the filter from_string builds is changed again on construction, so it is not the filter the text denotes")
@@ -918,6 +936,40 @@ def delimiter_scans_start_at_the_first_octet(model: Model, run: Run, rule: str =
                 run.fail(Finding(rule, fi.qualname, norm(lp.iter)[:80], f"{fi.name} scans for a delimiter with `for {i} in {norm(lp.iter)[:40]}`: the octet at index 0 is never looked at, so an "
                                  "empty piece in front of the delimiter (an empty assertion value) is mis-scanned", model.loc(fi.module, lp)))
     run.ob(rule, True, {"delimiter_scans": n})
+
+
+def delimiter_searches_stay_in_their_piece(model: Model, run: Run, rule: str = "J22-delimiter-search-stays-in-its-piece") -> None:
+    """J22: a search for a structural character with explicit bounds (`buf.find(b"*", lo, hi)`, `.index`, `.count`, `.rfind`) looks at
+    one piece of the text - a piece the function also cuts out as a slice `buf[lo:hi]` with the same bounds - or at a prefix of
+    such a piece (`hi` itself found by an earlier search).  A search whose upper bound is the end of the *enclosing* text finds a
+    character that belongs to a later sibling, and the piece in front of it is then read as something it is not (an equality
+    value taken for a substrings pattern because a `*` follows somewhere)."""
+    from ..anchors import filt as filter_anchors
+    fa = filter_anchors(model)
+    DELIMS = {")", "(", "=", "*", b")", b"(", b"=", b"*"}
+    n = 0
+    for fi in fa.parser_functions:
+        slices = {(norm(x.slice.lower) if x.slice.lower is not None else "", norm(x.slice.upper) if x.slice.upper is not None else "")
+                  for x in ast.walk(fi.node) if isinstance(x, ast.Subscript) and isinstance(x.slice, ast.Slice) and x.slice.step is None}
+        # names bound from an earlier bounded search: the end of a piece found on the way
+        found_by_search = {t_.id for a in ast.walk(fi.node) if isinstance(a, ast.Assign) and isinstance(a.value, ast.Call) and isinstance(a.value.func, ast.Attribute) and
+                           a.value.func.attr in ("find", "index", "rfind", "rindex") for t_ in a.targets if isinstance(t_, ast.Name)}
+        for c in ast.walk(fi.node):
+            if not (isinstance(c, ast.Call) and isinstance(c.func, ast.Attribute) and c.func.attr in ("find", "index", "rfind", "rindex", "count") and len(c.args) == 3 and
+                    isinstance(c.args[0], ast.Constant) and c.args[0].value in DELIMS):
+                continue
+            n += 1
+            lo, hi = norm(c.args[1]), norm(c.args[2])
+            ok = (lo, hi) in slices or (isinstance(c.args[2], ast.Name) and c.args[2].id in found_by_search and any(l_ == lo for l_, _h in slices))
+            # the search that *defines* a piece: its result becomes the upper bound of a slice starting at the same lower bound
+            tgt = next((t_.id for a in ast.walk(fi.node) if isinstance(a, ast.Assign) and a.value is c for t_ in a.targets if isinstance(t_, ast.Name)), None)
+            if not ok and tgt is not None and any(l_ == lo and h_ == tgt for l_, h_ in slices):
+                ok = True
+            run.ob(rule, ok, {"function": fi.name, "search": norm(c)[:70]})
+            if not ok:
+                run.fail(Finding(rule, fi.qualname, norm(c)[:80], f"{fi.name} looks for {c.args[0].value!r} with `{norm(c)[:60]}`: no piece of the text is cut out with these bounds, so the "
+                                 "search runs on into what follows the piece and a character of a later sibling decides how this piece is read", model.loc(fi.module, c)))
+    run.ob(rule, True, {"bounded_delimiter_searches": n})
 
 
 def operator_agreement(model: Model, run: Run) -> None:
